@@ -85,7 +85,31 @@ type Ctx struct {
 	sampleNext int64
 	Outcomes   *U64Set
 	Extra      map[string]int64 // named counters (reach evidence, distinct classes)
+	KnownCls   map[string]*KnownStat
 	verbose    bool
+}
+
+// KnownStat aggregates failing cases that fall into a precisely described
+// class of a recorded finding (the class predicate and the exact defective
+// behaviour are checked by the property's code before calling Ctx.Known).
+type KnownStat struct {
+	Count   int64   `json:"count"`
+	Example Failure `json:"example"`
+}
+
+// Known records a failing case that (a) belongs to the input class `class` and
+// (b) shows exactly the defective behaviour recorded for that class. Whether it
+// is suppressed is decided by the parent from KNOWN_FINDINGS.txt.
+func (c *Ctx) Known(class, key, detail string) {
+	ks := c.KnownCls[class]
+	if ks == nil {
+		ks = &KnownStat{Example: Failure{Layer: c.layer.Name, Unit: c.unit, Index: c.index, Key: key, Detail: detail}}
+		c.KnownCls[class] = ks
+	}
+	ks.Count++
+	if c.replay {
+		fmt.Fprintf(os.Stderr, "KNOWN-CLASS %s key=%s\n   %s\n", class, key, detail)
+	}
 }
 
 const maxFailsKept = 200
@@ -229,6 +253,7 @@ type WorkerReport struct {
 	Outcomes   int              `json:"outcomes"`
 	OutFull    bool             `json:"outcomes_saturated"`
 	Extra      map[string]int64 `json:"extra"`
+	Known      map[string]*KnownStat `json:"known"`
 	Crash      string           `json:"crash,omitempty"`
 }
 
@@ -248,7 +273,7 @@ func runWorker(p *Property, tier string, w, nw int, journal string) {
 	debug.SetGCPercent(400)
 	layers := p.Layers(tier)
 	rep := WorkerReport{Worker: w, Extra: map[string]int64{}}
-	c := &Ctx{prop: p, tier: tier, failKeys: map[string]bool{}, Outcomes: NewU64Set(1 << 22), Extra: rep.Extra}
+	c := &Ctx{prop: p, tier: tier, failKeys: map[string]bool{}, Outcomes: NewU64Set(1 << 22), Extra: rep.Extra, KnownCls: map[string]*KnownStat{}}
 	c.verbose = os.Getenv("VERIF_VERBOSE") != ""
 	c.deadline = time.Now().Add(tierBudget(tier))
 	var jf *os.File
@@ -282,6 +307,7 @@ func runWorker(p *Property, tier string, w, nw int, journal string) {
 		rep.Layers = append(rep.Layers, st)
 	}
 	rep.Fails, rep.TotalFails, rep.Samples = c.Fails, c.TotalFails, c.Samples
+	rep.Known = c.KnownCls
 	rep.Outcomes, rep.OutFull = c.Outcomes.n, c.Outcomes.full
 	out := bufio.NewWriter(os.Stdout)
 	b, _ := json.Marshal(rep)
@@ -317,9 +343,9 @@ type knownFinding struct {
 	Prop  string
 	ID    string
 	What  string
-	Keys  map[string]bool
-	Regex string
-	seen  int
+	Keys    map[string]bool
+	Classes map[string]bool
+	seen    int64
 }
 
 func verifDir() string {
@@ -350,7 +376,7 @@ func loadKnownFindings(prop string) []*knownFinding {
 		if !strings.HasPrefix(ln, "finding:") {
 			continue
 		}
-		kf := &knownFinding{Keys: map[string]bool{}}
+		kf := &knownFinding{Keys: map[string]bool{}, Classes: map[string]bool{}}
 		rest := strings.TrimSpace(strings.TrimPrefix(ln, "finding:"))
 		if i := strings.Index(rest, " what="); i >= 0 {
 			kf.What = rest[i+6:]
@@ -366,6 +392,8 @@ func loadKnownFindings(prop string) []*knownFinding {
 				for _, k := range strings.Split(f[5:], "|") {
 					kf.Keys[k] = true
 				}
+			case strings.HasPrefix(f, "class="):
+				kf.Classes[f[6:]] = true
 			case strings.HasPrefix(f, "keyfile="):
 				kb, err := os.ReadFile(filepath.Join(verifDir(), f[8:]))
 				if err == nil {
@@ -472,7 +500,14 @@ func runParent(p *Property, tier string) int {
 	var samples []string
 	extra := map[string]int64{}
 	outMax, outSum, outFull := 0, 0, false
+	known := map[string]*KnownStat{}
 	for _, r := range reports {
+		for cl, ks := range r.Known {
+			if known[cl] == nil {
+				known[cl] = &KnownStat{Example: ks.Example}
+			}
+			known[cl].Count += ks.Count
+		}
 		for i, ls := range r.Layers {
 			if i < len(stats) {
 				stats[i].Evals += ls.Evals
@@ -527,6 +562,27 @@ func runParent(p *Property, tier string) int {
 		}
 		if !matched {
 			viol = append(viol, f)
+		}
+	}
+	var classes []string
+	for cl := range known {
+		classes = append(classes, cl)
+	}
+	sort.Strings(classes)
+	for _, cl := range classes {
+		ks := known[cl]
+		listed := false
+		for _, kf := range kfs {
+			if kf.Classes[cl] {
+				kf.seen += ks.Count
+				listed = true
+			}
+		}
+		if !listed {
+			f := ks.Example
+			f.Detail = fmt.Sprintf("[class %s, %d cases; not listed in KNOWN_FINDINGS.txt] %s", cl, ks.Count, f.Detail)
+			viol = append(viol, f)
+			total += ks.Count
 		}
 	}
 	var kfLines []string
@@ -587,6 +643,7 @@ func runParent(p *Property, tier string) int {
 		"counters":                      extra,
 		"failing_cases_total":           total,
 		"known_findings_matched":        kfLines,
+		"known_finding_classes":         known,
 		"workers":                       nw,
 		"explanation":                   "states = distinct enumerated cases (operation + operands + receiver state; the enumerators de-duplicate by construction); transitions = executions of the real operation, one per state; every transition is compared with the reference model, hence traces_validated_against_impl = transitions.",
 	}
@@ -599,6 +656,15 @@ func runParent(p *Property, tier string) int {
 		p.ID, tier, evals, nontriv, outMax, total, len(viol), exhaustive, time.Since(start).Seconds())
 	for _, s := range stats {
 		fmt.Printf("  layer %-28s units=%d/%d evals=%d nontrivial=%d fails=%d cut=%v\n", s.Name, s.UnitsDone, s.Units, s.Evals, s.NonTrivial, s.Fails, s.Cut)
+		if s.Fails > 0 {
+			n := 0
+			for _, f := range fails {
+				if f.Layer == s.Name && n < 3 {
+					fmt.Printf("      first failing: %s\n         %s\n", f.Key, strings.ReplaceAll(f.Detail, "\n", "\n         "))
+					n++
+				}
+			}
+		}
 	}
 	if evals == 0 {
 		fmt.Fprintln(os.Stderr, "HARNESS-ERROR: nothing was evaluated")
@@ -693,7 +759,7 @@ func runReplay(p *Property, path string) int {
 		}
 		st := LayerStat{Name: L.Name}
 		c := &Ctx{prop: p, tier: r.Tier, layer: L, stat: &st, unit: r.Unit, replay: true, target: r.Index,
-			failKeys: map[string]bool{}, Outcomes: NewU64Set(1 << 10), Extra: map[string]int64{}}
+			failKeys: map[string]bool{}, Outcomes: NewU64Set(1 << 10), Extra: map[string]int64{}, KnownCls: map[string]*KnownStat{}}
 		c.deadline = time.Now().Add(time.Hour)
 		runUnit(c, L, r.Unit)
 		if c.TotalFails > 0 {
